@@ -242,6 +242,11 @@ def run(chk, replay=None):
                 if m:
                     opname = m.group(1) or m.group(2)
             tags = {"op": opname, "kind": "sanitizer-abort", "san": kind}
+            if opname in ("mutation", "tmutation") and len(t) > 6 and all(x.isdigit() for x in t[1:7]):
+                # mutation <ss> <env code_length> <env patch_length> <zero?> [<k>] <rows> …
+                rows_ = int(t[5] if opname == "mutation" else t[6])
+                tags.update({"env_code_length": int(t[2]), "env_patch_length": int(t[3]), "rows": rows_,
+                             "env_patch_length_exceeds_size": int(t[3]) > rows_})
             chk.count("death:" + tags["op"])
             chk.violation("the harness died (rc=%s, %s) in a real operator call (%s): %s"
                           % (d["rc"], kind, opname, (req or "(reported at exit)")[:200]),
